@@ -36,7 +36,7 @@ func (c *Ctx) lrIdealEval(abss []synAbs) []idealSumm {
 	return out
 }
 
-var c04Opts = synGenOpts{MaxNT: 3, MaxT: 3, MaxAlts: 3, MaxBody: 3, PEmpty: 0.15, PLit: 0.3, PDup: 0.15}
+var c04Opts = synGenOpts{MaxNT: 3, MaxT: 3, MaxAlts: 3, MaxBody: 3, PEmpty: 0.15, PLit: 0.3, PDup: 0.15, PSplit: 0.15}
 
 func conflictFeature(s idealSumm) string {
 	switch {
